@@ -39,6 +39,8 @@ def qualifier(op):
 
 def pred(snap, op, prev, exc):
     q = qualifier(op)
+    if snap.get("out") == "err:hang":        # harness/dhg.py watchdog: the call never came back
+        return [] if getattr(exc, "presumed", False) else [("call-does-not-return" + q, str(exc))]
     return [(cls + q, detail) for cls, detail in clauses(snap)]
 
 
@@ -53,6 +55,13 @@ def clauses(snap):
     head = {repr(e): v for e, v in snap["head"]}
     mout = {repr(n): v for n, v in snap["membOut"]}
     minn = {repr(n): v for n, v in snap["membIn"]}
+    # --- IDs are hashable scalars of the kinds that were handed in (harness/dhg.py safe_id marks anything else)
+    bad = [x for x in list(nodes) + list(edges) if isinstance(x, str) and x.startswith("$bad:")]
+    for _, v in list(snap["tail"]) + list(snap["head"]) + list(snap["membIn"]) + list(snap["membOut"]):
+        if isinstance(v, list):
+            bad += [x for x in v if isinstance(x, str) and x.startswith("$bad:")]
+    if bad:
+        fails.append(("id-outside-domain", f"an object that was never given as an ID is stored as a node / edge / member: {bad[:3]}"))
     # --- IDs: None is never an ID, no ID listed twice
     if None in nodes or None in edges:
         fails.append(("none-id", "None is a node or edge id"))
@@ -201,6 +210,12 @@ def run_exhaustive(ctx, fields, depth, chunk=4000):
 def run(ctx):
     ok = build_and_audit(ctx, "XgiModel.Props.C02", ["XgiModel.C02.Drive"])
     fields = _fields()
+    try:        # a class whose empty instance cannot be built or read is reported, not a reason to crash
+        M.snapshot(M.factory())
+    except BaseException as ex:  # noqa  (RecursionError through __getattr__ included)
+        ctx.violation("DiHypergraph", "empty-network-unusable", {"class": M.NAME, "ops": []},
+                      detail=f"xgi.DiHypergraph() cannot be created / observed: {type(ex).__name__}: {str(ex)[:200]}")
+        return finish(ctx, trusted_base=TRUSTED_COMMON)
     ctx.rule = ("histories of 1-30 public mutator calls on xgi.DiHypergraph from one PRNG (all five bulk formats, explicit/auto "
                 "ids, tail/head direction, weak/strong removal, remove_empty on/off, None / missing / duplicate ids, nodes in "
                 "both head and tail, empty head or tail, malformed member shapes, copy, cleanup, relabel, freeze); the WFd "
